@@ -1,18 +1,21 @@
 """
 C14 -- interval() ticks on a fixed grid, delay() pauses a fixed span, for any body.
 
-Structural clauses decided (DESIGN.md section 5/C14):
-  A  interval: remaining == last + period - now (rational-function normal form); ``last``
-     is re-read from the clock after the wait and is the value yielded.  delay: each step
-     waits exactly ``period`` and yields the clock
-  G  sign split: remaining < 0 -> IntervalExceeded, > 0 -> suspend(remaining), else
-     postpone -- the three branches partition the orderings; a negative period raises
+Structural clauses decided (DESIGN.md section 5/C14), all on paths with the values that
+reach each use (temporaries, helpers and remembered comparisons are seen through):
+  A  interval: whatever is waited for equals E = last + period - now as a rational
+     function, where ``last`` is the clock read after the previous wait (the value that was
+     yielded) and ``now`` a clock read of the current step.  delay: each step waits exactly
+     ``period`` and yields the clock read after the wait
+  G  sign split: E < 0 -> IntervalExceeded, E > 0 -> suspend(E), E == 0 -> postpone -- the
+     branches partition the orderings; a negative (and only a negative) period raises
      ValueError before the first wait in both generators
   Y  every step (entry->yield, yield->yield) must suspend, for period == 0 too
   L3 the delays handed to suspend() are dominated by their positivity
 The tick grid as numbers (float accumulation of last + period) is not decided.
 """
 import ast
+import copy
 
 from ..engine import Analysis, is_call_to, is_suspension, short, where_fn, tested, key_truth
 from ..model import AnalysisError
@@ -24,17 +27,43 @@ from . import c20
 PROP = 'C14'
 INTERVAL = 'usim._primitives.timing.interval'
 DELAY = 'usim._primitives.timing.delay'
+NOW = 'NOW_'
 
 
-def _clock_locals(fn):
-    return [name for name in {n.id for n in ast.walk(fn.node) if isinstance(n, ast.Name)}
-            if any(v is not None and rules.is_current_time(v, fn)
-                   for v in rules.local_values(fn, name))]
+def _now_symbol(expr, fn):
+    """direct reads of the clock become NOW_; locals that hold an earlier read stay"""
+    class Sub(ast.NodeTransformer):
+        def visit_Attribute(self, node):
+            if isinstance(node.ctx, ast.Load) and rules.is_current_time(node, fn):
+                return ast.Name(id=NOW, ctx=ast.Load())
+            return self.generic_visit(node)
+    return Sub().visit(copy.deepcopy(expr))
+
+
+def _ineq(text, value=True):
+    return rules.asserted(ast.parse(text, mode='eval').body, value)
+
+
+def _step_bounds(path):
+    """indices that start a step: entry and every yield"""
+    return [0] + [i + 1 for i, e in enumerate(path.events) if e.kind == 'yield'
+                  and e.depth == 0]
+
+
+def _clock_local(path, index, name):
+    """position of the store when local ``name`` holds a clock read at ``index``"""
+    found = rules.reaching_store(path, index, name)
+    if found is None or found[1].data.get('value') is None:
+        return None
+    if rules.is_current_time(found[1]['value'], found[1].fn):
+        return found[0]
+    return None
 
 
 def run(check, an: Analysis):
-    check.rule('A', 'interval: remaining == last + period - now; last re-read after the wait '
-                    'and yielded; delay waits exactly period and yields the clock')
+    check.rule('A', 'interval: the wait equals last + period - now; last is the clock read '
+                    'after the previous wait and is what was yielded; delay waits exactly '
+                    'period and yields the clock')
     check.rule('G', 'sign split of the remaining delay; negative periods rejected before the '
                     'first wait')
     check.rule('Y', 'every step must suspend')
@@ -43,127 +72,183 @@ def run(check, an: Analysis):
     dfn = an.fn(DELAY)
     icallee, dcallee = Callee(ifn, None), Callee(dfn, None)
     period = ifn.node.args.args[0].arg
-
-    # ---- A: interval -----------------------------------------------------------
     ipaths = an.paths(icallee)
-    sus = [n for n in ast.walk(ifn.node) if isinstance(n, ast.Call)
-           and ast.unparse(n.func) == 'suspend']
-    clock_names = _clock_locals(ifn)
-    ok_formula, detail = False, 'suspend(delay=...) not found'
-    if len(sus) == 1:
-        kws = {kw.arg: kw.value for kw in sus[0].keywords}
-        delay_expr = kws.get('delay')
-        if isinstance(delay_expr, ast.Name):
-            values = rules.local_values(ifn, delay_expr.id)
-            if len(values) == 1 and values[0] is not None:
-                expr = values[0]
-                # replace direct clock reads by a symbol, keep the `last` local as symbol
-                text = ast.unparse(expr).replace('time.now', 'NOW')
-                last = [n for n in clock_names if n in text]
-                if len(last) == 1:
-                    want = '%s + %s - NOW' % (last[0], period)
-                    ok_formula = equal_algebra(text, want)
-                    detail = 'remaining = %s  (expected %s)' % (ast.unparse(expr), want)
-        until_none = 'until' in kws and isinstance(kws['until'], ast.Constant) \
-            and kws['until'].value is None
-        ok_formula = ok_formula and until_none
-    check.instance('A', 'interval:remaining', ok_formula, where_fn(ifn), detail)
-    # last is re-read after the wait and yielded
-    verdict, n, bad = True, 0, None
-    for path in ipaths:
-        for index, event in enumerate(path.events):
-            if event.kind == 'yield' and event.depth == 0 and event['exit'] == 'normal':
-                n += 1
-                value = event.node.value
-                ok = isinstance(value, ast.Name) and value.id in clock_names
-                # the last store to that name lies after the last suspension
-                store = susp = None
-                for pos in range(index - 1, -1, -1):
-                    before = path.events[pos]
-                    if store is None and before.kind == 'store' and \
-                            isinstance(value, ast.Name) and before['path'] == value.id:
-                        store = pos
-                    if susp is None and before.kind == 'susp' and is_suspension(before):
-                        susp = pos
-                    if before.kind == 'yield':
-                        break
-                ok = ok and store is not None and susp is not None and store > susp
-                if not ok:
-                    verdict = False
-                    bad = bad or (path, index)
-    check.instance('A', 'interval:yields-fresh-clock', verdict and n > 0, where_fn(ifn),
-                   'the yielded value is the clock read after the wait and becomes the new '
-                   'reference point (%d yields on paths)' % n,
-                   path=rules.path_lines(*bad) if bad else None, analysed=n)
-    # ---- A: delay --------------------------------------------------------------
-    dperiod = dfn.node.args.args[0].arg
-    sus = [n for n in ast.walk(dfn.node) if isinstance(n, ast.Call)
-           and ast.unparse(n.func) == 'suspend']
-    ok = len(sus) == 1 and {kw.arg: ast.unparse(kw.value) for kw in sus[0].keywords} == {
-        'delay': dperiod, 'until': 'None'}
-    check.instance('A', 'delay:waits-period', ok, where_fn(dfn),
-                   'each step suspends for exactly `%s`' % dperiod)
-    yields = [n for n in ast.walk(dfn.node) if isinstance(n, ast.Yield)]
-    ok = bool(yields) and all(y.value is not None and rules.is_current_time(y.value, dfn)
-                              for y in yields)
-    check.instance('A', 'delay:yields-clock', ok, where_fn(dfn),
-                   'every step yields the current time')
-    dpaths = an.paths(dcallee)
-    verdict = True
-    for path in dpaths:
-        for index, event in enumerate(path.events):
-            if event.kind == 'susp' and event.depth == 0 and event['exit'] == 'normal':
-                pos = rules.fact_value(event, ('lt', '0', dperiod))
-                if is_call_to(event, 'suspend'):
-                    verdict &= pos is True
-                elif is_call_to(event, 'postpone'):
-                    verdict &= pos is False
-    check.instance('A', 'delay:branch-by-sign', verdict, where_fn(dfn),
-                   'suspend(period) iff period > 0, postpone otherwise')
-    # ---- G ---------------------------------------------------------------------
+
+    # ---- interval: formula, sign split, freshness ---------------------------------
+    formula_ok, fresh_ok, l3_ok = True, True, True
+    n_wait = n_yield = 0
+    bad_formula = bad_fresh = None
     branches = {}
     for path in ipaths:
-        tests = [e for e in path.events if e.kind == 'test']
-        first_wait = next((i for i, e in enumerate(path.events)
-                           if e.kind == 'susp' and e.depth == 0), None)
-        first_raise = next((i for i, e in enumerate(path.events)
-                            if e.kind == 'raise' and e.depth == 0), None)
-        name = _remaining_name(ifn)
-        neg = [e for e in tests if e.get('key') == ('lt', name, '0')]
-        pos = [e for e in tests if e.get('key') == ('lt', '0', name)]
-        if first_raise is not None and (first_wait is None or first_raise < first_wait):
-            exc = path.events[first_raise]['exc']
-            if exc.endswith('IntervalExceeded'):
-                ok = bool(neg) and key_truth(neg[0]) is True
-                branches.setdefault(('negative->IntervalExceeded', ok), path)
-            elif exc == 'ext:ValueError':
-                ok = any(tested(e, ('lt', period, '0'), True) for e in tests)
-                branches.setdefault(('period<0->ValueError', ok), path)
-        elif first_wait is not None:
-            event = path.events[first_wait]
+        events = path.events
+        bounds = _step_bounds(path)
+        for index, event in enumerate(events):
+            if event.depth != 0:
+                continue
+            start = max(b for b in bounds if b <= index)
+            if event.kind == 'raise' and isinstance(event.node, ast.Raise):
+                exc = event['exc']
+                facts = [f for _p, f, _a in rules.path_inequalities(
+                    path, start, index, transform=_now_symbol)]
+                if exc.endswith('IntervalExceeded'):
+                    last = _last_symbol(path, index, facts, period)
+                    ok = last is not None and _ineq(
+                        '%s + %s - %s < 0' % (last, period, NOW)) in facts
+                    branches.setdefault(('negative->IntervalExceeded', ok), (path, index))
+                elif exc == 'ext:ValueError':
+                    waited = any(e.kind == 'susp' and e.depth == 0 for e in events[:index])
+                    ok = _ineq('%s < 0' % period) in facts and not waited
+                    branches.setdefault(('period<0->ValueError', ok), (path, index))
+                continue
+            if not (event.kind == 'susp' and event['how'] == 'await'):
+                continue
+            facts = [f for _p, f, _a in rules.path_inequalities(
+                path, start, index, transform=_now_symbol)]
+            last = _last_symbol(path, index, facts, period)
+            n_wait += 1
+            want = '%s + %s - %s' % (last, period, NOW)
+            # a zero period is waited for like any other: the period is not rejected
+            if _ineq('%s < 0' % period, False) not in [
+                    f for _p, f, _a in rules.path_inequalities(
+                        path, 0, index, transform=_now_symbol)]:
+                branches.setdefault(('period>=0-accepted', False), (path, index))
             if is_call_to(event, 'suspend'):
-                ok = bool(pos) and key_truth(pos[0]) is True and bool(neg) and \
-                    key_truth(neg[0]) is False
-                branches.setdefault(('positive->suspend', ok), path)
+                call = event.node.value if isinstance(event.node, ast.Await) else None
+                kws = {kw.arg: kw.value for kw in call.keywords} if isinstance(
+                    call, ast.Call) else {}
+                delay = kws.get('delay')
+                good = last is not None and delay is not None and not (
+                    call.args if call else True)
+                if good:
+                    text = ast.unparse(_now_symbol(rules.value_expr(path, index, delay), ifn))
+                    good = equal_algebra(text, want) and \
+                        rules.value_text(path, index, kws.get('until', delay)) == 'None'
+                if not good:
+                    formula_ok, bad_formula = False, bad_formula or (path, index)
+                pos = last is not None and _ineq('%s > 0' % want) in facts
+                neg = last is not None and _ineq('%s < 0' % want, False) in facts
+                l3_ok &= bool(pos)
+                branches.setdefault(('positive->suspend', bool(pos and neg)), (path, index))
             elif is_call_to(event, 'postpone'):
-                ok = bool(pos) and key_truth(pos[0]) is False and bool(neg) and \
-                    key_truth(neg[0]) is False
-                branches.setdefault(('zero->postpone', ok), path)
-    for (name, ok), path in sorted(branches.items(), key=lambda kv: repr(kv[0])):
+                pos = last is not None and _ineq('%s > 0' % want, False) in facts
+                neg = last is not None and _ineq('%s < 0' % want, False) in facts
+                branches.setdefault(('zero->postpone', bool(pos and neg)), (path, index))
+            else:
+                branches.setdefault(('other-wait', False), (path, index))
+        # yields: the clock read after the wait of this step, the next reference point
+        for index, event in enumerate(events):
+            if event.kind != 'yield' or event.depth != 0:
+                continue
+            n_yield += 1
+            waits = [i for i in range(index) if events[i].kind == 'susp'
+                     and events[i].depth == 0 and is_suspension(events[i])]
+            value = event.node.value
+            good = bool(waits) and value is not None
+            if good:
+                seen = rules.value_expr(path, index, value)
+                if isinstance(seen, ast.Name):
+                    pos = _clock_local(path, index, seen.id)
+                    good = pos is not None and pos > waits[-1]
+                    # ... and the next step measures from it
+                    later = [i for i in range(index + 1, len(events))
+                             if events[i].kind == 'susp' and events[i].depth == 0
+                             and events[i]['how'] == 'await']
+                    if good and later:
+                        facts = [f for _p, f, _a in rules.path_inequalities(
+                            path, index + 1, later[0], transform=_now_symbol)]
+                        good = _last_symbol(path, later[0], facts, period) == seen.id and \
+                            _clock_local(path, later[0], seen.id) == pos
+                else:
+                    good = False  # a direct read would not be remembered for the next step
+            if not good:
+                fresh_ok, bad_fresh = False, bad_fresh or (path, index)
+    check.instance('A', 'interval:remaining', formula_ok and n_wait > 0, where_fn(ifn),
+                   'suspend(delay=last + period - now, until=None) (%d waits on paths)'
+                   % n_wait, path=rules.path_lines(*bad_formula) if bad_formula else None,
+                   analysed=n_wait)
+    check.instance('A', 'interval:yields-fresh-clock', fresh_ok and n_yield > 0,
+                   where_fn(ifn), 'the yielded value is the clock read after the wait and '
+                   'becomes the new reference point (%d yields on paths)' % n_yield,
+                   path=rules.path_lines(*bad_fresh) if bad_fresh else None,
+                   analysed=n_yield)
+    for (name, ok), where in sorted(branches.items(), key=lambda kv: repr(kv[0])):
         check.instance('G', 'interval:%s' % name, ok, where_fn(ifn),
                        'branch guarded by the matching sign test',
-                       path=rules.path_lines(path))
+                       path=rules.path_lines(*where))
     names = {name for name, _ok in branches}
     check.instance('G', 'interval:partition', names == {
         'negative->IntervalExceeded', 'positive->suspend', 'zero->postpone',
         'period<0->ValueError'}, where_fn(ifn), 'branches found: %s' % sorted(names))
+    check.instance('L3', 'interval:suspend-delay-positive', l3_ok and n_wait > 0,
+                   where_fn(ifn), 'delay > 0 established before every suspend '
+                   '(%d waits on paths)' % n_wait, analysed=n_wait)
+    # ---- delay ------------------------------------------------------------------------
+    dperiod = dfn.node.args.args[0].arg
+    dpaths = an.paths(dcallee)
+    wait_ok, sign_ok, yield_ok, n_dwait, n_dyield = True, True, True, 0, 0
+    bad = None
+    for path in dpaths:
+        events = path.events
+        for index, event in enumerate(events):
+            if event.depth != 0:
+                continue
+            if event.kind == 'susp' and event['how'] == 'await':
+                n_dwait += 1
+                facts = [f for _p, f, _a in rules.path_inequalities(path, 0, index)]
+                if is_call_to(event, 'suspend'):
+                    call = event.node.value if isinstance(event.node, ast.Await) else None
+                    kws = {kw.arg: rules.value_text(path, index, kw.value)
+                           for kw in call.keywords} if isinstance(call, ast.Call) else {}
+                    if kws != {'delay': dperiod, 'until': 'None'} or call.args:
+                        wait_ok, bad = False, bad or (path, index)
+                    if _ineq('%s > 0' % dperiod) not in facts:
+                        sign_ok, bad = False, bad or (path, index)
+                elif is_call_to(event, 'postpone'):
+                    if _ineq('%s > 0' % dperiod, False) not in facts:
+                        sign_ok, bad = False, bad or (path, index)
+                else:
+                    wait_ok, bad = False, bad or (path, index)
+            elif event.kind == 'yield':
+                n_dyield += 1
+                waits = [i for i in range(index) if events[i].kind == 'susp'
+                         and events[i].depth == 0 and is_suspension(events[i])]
+                value = event.node.value
+                good = bool(waits) and value is not None
+                if good:
+                    seen = rules.value_expr(path, index, value)
+                    if isinstance(seen, ast.Name):
+                        pos = _clock_local(path, index, seen.id)
+                        good = pos is not None and pos > waits[-1]
+                    else:
+                        good = rules.is_current_time(seen, dfn)
+                if not good:
+                    yield_ok, bad = False, bad or (path, index)
+    check.instance('A', 'delay:waits-period', wait_ok and n_dwait > 0, where_fn(dfn),
+                   'each step suspends for exactly `%s` (%d waits on paths)' % (
+                       dperiod, n_dwait),
+                   path=rules.path_lines(*bad) if bad and not wait_ok else None)
+    check.instance('A', 'delay:yields-clock', yield_ok and n_dyield > 0, where_fn(dfn),
+                   'every step yields the time read after its wait (%d yields on paths)'
+                   % n_dyield, path=rules.path_lines(*bad) if bad and not yield_ok else None)
+    check.instance('A', 'delay:branch-by-sign', sign_ok and n_dwait > 0, where_fn(dfn),
+                   'suspend(period) iff period > 0, postpone otherwise',
+                   path=rules.path_lines(*bad) if bad and not sign_ok else None)
+    check.instance('L3', 'delay:suspend-delay-positive', sign_ok and n_dwait > 0,
+                   where_fn(dfn), 'delay > 0 established before every suspend '
+                   '(%d sites on paths)' % n_dwait, analysed=n_dwait)
     neg_paths = [p for p in dpaths if p.kind == 'raise' and
                  p.outcome[1].cls == 'ext:ValueError']
     ok = bool(neg_paths) and all(
         not any(e.kind == 'susp' for e in p.events) and
-        any(tested(e, ('lt', dperiod, '0'), True) for e in p.events) for p in neg_paths)
-    check.instance('G', 'delay:period<0->ValueError', ok, where_fn(dfn),
-                   'a negative period is rejected before the first wait')
+        _ineq('%s < 0' % dperiod) in [f for _p, f, _a in rules.path_inequalities(p)]
+        for p in neg_paths)
+    accepted = all(_ineq('%s < 0' % dperiod, False) in [
+        f for _p, f, _a in rules.path_inequalities(p, 0, i)]
+        for p in dpaths for i, e in enumerate(p.events)
+        if e.kind == 'susp' and e.depth == 0 and e['how'] == 'await')
+    check.instance('G', 'delay:period<0->ValueError', ok and accepted, where_fn(dfn),
+                   'a negative period, and only a negative one, is rejected before the '
+                   'first wait')
     # ---- Y ---------------------------------------------------------------------
     for callee, label in ((icallee, 'interval'), (dcallee, 'delay')):
         seg = c20.failing_segment(an.paths(callee))
@@ -174,26 +259,20 @@ def run(check, an: Analysis):
         check.instance('Y', '%s:step' % label, seg is None, where_fn(callee.fn),
                        'every entry|yield -> yield segment contains a MUST suspension',
                        path=lines, analysed=len(an.paths(callee)))
-    # ---- L3 --------------------------------------------------------------------
-    for callee, label in ((icallee, 'interval'), (dcallee, 'delay')):
-        verdict, n = True, 0
-        for path in an.paths(callee):
-            for event in path.events:
-                if event.kind == 'call' and is_call_to(event, 'suspend'):
-                    n += 1
-                    arg = [kw.value for kw in event.node.keywords if kw.arg == 'delay']
-                    text = ast.unparse(arg[0]) if arg else '?'
-                    verdict &= rules.fact_value(event, ('lt', '0', text)) is True
-        check.instance('L3', '%s:suspend-delay-positive' % label, verdict and n > 0,
-                       where_fn(callee.fn), 'delay > 0 established before every suspend '
-                       '(%d sites on paths)' % n, analysed=n)
     check.stats.update(an.stats())
 
 
-def _remaining_name(fn):
-    for node in ast.walk(fn.node):
-        if isinstance(node, ast.Call) and ast.unparse(node.func) == 'suspend':
-            for kw in node.keywords:
-                if kw.arg == 'delay' and isinstance(kw.value, ast.Name):
-                    return kw.value.id
-    return '?'
+def _last_symbol(path, index, facts, period):
+    """the clock local L for which the step's tests speak about L + period - NOW_"""
+    names = set()
+    for event in path.events[:index]:
+        if event.kind == 'store' and event.depth == 0 and isinstance(event.node, ast.Name) \
+                and event.data.get('value') is not None and \
+                rules.is_current_time(event['value'], event.fn):
+            names.add(event.node.id)
+    for name in sorted(names):
+        probes = [_ineq('%s + %s - %s %s 0' % (name, period, NOW, op), value)
+                  for op in ('<', '>') for value in (True, False)]
+        if any(p in facts for p in probes):
+            return name
+    return None
